@@ -15,7 +15,7 @@ PLATFORMS = ["cisco_iosxe", "cisco_iosxr", "cisco_nxos", "arista_eos", "juniper_
 MAXHOST = {"cisco_iosxe": 63, "cisco_iosxr": 48, "cisco_nxos": 63, "arista_eos": 63, "juniper_junos": 40, "generic": 48}
 SAFE = "abcdefghijklmnopqrstuvwxyzABCDEFGHIJKLMNOPQRSTUVWXYZ0123456789 .,;=_-/()[{}'\"!?*+|\\^&"   # no prompt terminators # > $ % ~ @ : ]
 HOSTCH = "abcdefghijklmnopqrstuvwxyzABCDEFGHIJKLMNOPQRSTUVWXYZ0123456789"
-COMMANDS = ["show version", "show run | include lo0", "show ip route  ", "ping 10.0.0.1 repeat 2", "show (x|y)+ [a-z]*", "echo 100% done %s %r",
+COMMANDS = ["show vlan 100", "terminal width 511", "show version", "show run | include lo0", "show ip route  ", "ping 10.0.0.1 repeat 2", "show (x|y)+ [a-z]*", "echo 100% done %s %r",
             "show  two   blanks", "show café", "s", "show interfaces description | exclude ^Lo", "show\tversion", "SHOW Version", "show log | i #"]
 
 
@@ -69,6 +69,11 @@ def gen_scenario(rng, tier, eager_input=False):
                   depth=depth, trailing=rng.choice(TRAIL[platform]))
     if len(sc.hostname) + 30 >= d:
         sc.hostname = sc.hostname[:20]
+    if platform == "juniper_junos" and rng.random() < 0.5:
+        # Junos prints a banner line above the prompt; the driver's pattern treats it as part of the (two-line) prompt
+        sc.prompts = {"exec": rng.choice(["{{master:0}}", "{{backup}}", "{{master:1}}", "{{master}}"]) + "\n{u}@{h}>"}
+    if rng.random() < 0.08:
+        sc.echo_junk = {"seed": rng.randrange(10**6), "alphabet": "\x08"}     # strict matching ignores backspaces the device interleaves (Junos line wrap)
     cmds = rng.sample(COMMANDS, rng.randint(1, 4))
     for c in cmds:
         sc.outputs[c.strip()] = gen_output(rng, d if rng.random() < 0.7 else 60, cap=3 * d if small else None)
@@ -82,12 +87,7 @@ def gen_scenario(rng, tier, eager_input=False):
         elif r < 0.85:
             sc.ops.append(("send_commands", [rng.choice(cmds) for _ in range(rng.randint(1, 3))], rng.random() < 0.7))
         else:
-            q, qtext, expect = rng.choice([("clear counters", "Clear \"show interface\" counters on all interfaces [confirm]", "[confirm]"),
-                                           ("reload in 5", "Proceed? [y/n]: ", "[y/n]:")])
-            sc.questions[q] = qtext
-            if q not in sc.outputs:
-                sc.outputs[q] = rng.choice(["", "done", gen_output(rng, 40)])
-            sc.ops.append(("send_interactive", [(q, expect, False), (rng.choice(["", "y"]), "", False)], None))
+            sc.ops.append(gen_interactive(rng, sc))
     if small:
         k = rng.random()
         sc.cuts = [1] * 20000 if k < 0.5 else [rng.choice([2, 3, 7])] * 20000 if k < 0.7 else [rng.choice([1, 1, 2, 3, 5, 8]) for _ in range(6000)]
@@ -98,6 +98,34 @@ def gen_scenario(rng, tier, eager_input=False):
     else:
         sc.cuts = [rng.choice([20, 30, 200, 1000, 5000, 64, 7]) for _ in range(2000)]
     return sc
+
+
+DIALOGS = [("clear counters", ["Clear \"show interface\" counters on all interfaces [confirm]"], ["[confirm]"]),
+           ("reload in 5", ["Proceed? [y/n]: "], ["[y/n]:"]),
+           ("ping", ["Protocol [ip]: ", "Target IP address: ", "Repeat count [5]: "], ["Protocol [ip]:", "Target IP address:", "^Repeat count \\[\\d+\\]:\\s?$"]),
+           ("copy run start", ["Destination filename [startup-config]? ", "Overwrite [confirm]"], ["[startup-config]?", "[confirm]"])]
+ANSWERS = ["", "y", "n", "10.1.1.1", "5"]
+
+
+def gen_interactive(rng, sc):
+    """a multi-step dialogue; outputs may mention earlier expected texts; interaction_complete_patterns may be a list
+    object the caller re-uses across calls (last element of the op = sharing key)"""
+    q, qtexts, expects = rng.choice(DIALOGS)
+    sc.questions[q] = list(qtexts) if len(qtexts) > 1 else qtexts[0]
+    if q not in sc.outputs:
+        # outputs that mention an earlier expected text (not prompt-like for the network drivers; for the generic pattern a line
+        # ending in ':' or ']' would itself read as a prompt, which the property's quantifier excludes)
+        mention = "" if sc.platform == "generic" else rng.choice(["", "", expects[0] + " accepted", "note: " + expects[-1].strip("^$\\")])
+        sc.outputs[q] = rng.choice(["", "done", gen_output(rng, 40), mention, "line\n" + mention + "\nlast"])
+    events = [(q, expects[0], False)]
+    for i in range(1, len(qtexts)):
+        events.append((rng.choice(ANSWERS), expects[i], False))
+    events.append((rng.choice(ANSWERS), "", False))      # final answer: wait for the normal prompt
+    r = rng.random()
+    if r < 0.5:
+        return ("send_interactive", events, None)
+    comp = rng.choice([["NEVER-SEEN-TEXT"], ["^never\\d+$", "% Unknown"], []])
+    return ("send_interactive", events, comp, rng.choice([None, "shared-1"]))
 
 
 # ---------- oracle: the property stated on the device's own log, independent of the model
@@ -154,12 +182,16 @@ def oracle(sc, res):
         elif op[0] == "send_interactive":
             result, raw, _f, _ci = got
             q = op[1][0][0]
-            ans = op[1][1][0]
-            out_text = sc.outputs.get(q)
-            transcript = q.encode() + b"\n" + sc.questions[q].encode() + ans.encode() + expected_core(dev, out_text)
-            if result.encode() != normalize(transcript):
+            qs = sc.questions[q]
+            qs = qs if isinstance(qs, list) else [qs]
+            transcript = q.encode()
+            for qt, ev in zip(qs, op[1][1:]):
+                transcript += b"\n" + qt.encode() + ev[0].encode()
+            transcript += expected_core(dev, sc.outputs.get(q))
+            shown = result.encode().replace(b"\x08", b"") if sc.echo_junk else result.encode()   # the interactive result keeps the raw echo
+            if shown != normalize(transcript):
                 before = res.unread_before[k].replace(b"\r", b"")
-                if before and result.encode() == normalize(b"X" + before + transcript)[1:].lstrip(b"\n"):
+                if before and shown == normalize(b"X" + before + transcript)[1:].lstrip(b"\n"):
                     problems.append("F23")      # known: interactive result starts with the residue left unread by the previous operation
                 else:
                     problems.append(f"send_interactive result {result[:100]!r} != transcript {normalize(transcript)[:100]!r}")
